@@ -40,6 +40,9 @@ def main():
     elif args and args[0] == "--round9":
         src_root, tag = "/tmp/mut9", "r9"
         args = args[1:]
+    elif args and args[0] == "--round10":
+        src_root, tag = "/tmp/mut10", "r10"
+        args = args[1:]
     only = args
     head = sh("git -C /repo rev-parse --short HEAD")[1].strip()
     for pid in sorted(os.listdir(src_root)):
